@@ -328,10 +328,10 @@ class Case(object):
                        if not k.startswith('_')) or '-'
         fam = self.skey.split('_')[0]
         return ('{} kind={} fam={} method={} ops={} out={} kw={} nin={} nout={} res={} code={} '
-                '[ufunc={} space={} idx={}]'.format(
+                '[ufunc={} space={} idx={} layout={}]'.format(
                     self.stream, self.kind, fam, self.method, self.ops, self.out, kws,
                     self.ufunc.nin, self.ufunc.nout, res, code, self.uname, self.skey,
-                    self.kw.get('_idx', '-')))
+                    self.kw.get('_idx', '-'), self.kw.get('_layout', 'C')))
 
 
 def res_class(r):
@@ -425,12 +425,57 @@ def other_weighting_space(space, kind):
     raise SkipCase('no second weighting for power spaces')
 
 
+def lay_array(arr, layout):
+    """The same values in another memory layout: F-contiguous, or a strided view (every
+    second entry per axis) of a larger zero array. Returns (array, backing or None)."""
+    arr = np.asarray(arr)
+    if layout == 'F':
+        return np.asfortranarray(arr), None
+    if layout == 'strided':
+        if arr.ndim == 0:
+            raise SkipCase('no strided view of a 0-d array')
+        big = np.zeros(tuple(2 * n for n in arr.shape), dtype=arr.dtype)
+        view = big[tuple(slice(None, None, 2) for _ in arr.shape)]
+        view[...] = arr
+        return view, big
+    return arr, None
+
+
+def layout_element(space, arr, layout, kind):
+    """Element of (a space like) `space` holding `arr` in the given memory layout.
+    `slice-view` is a basic-slice view `parent[..., 1::2]` of a larger TENSOR (its space is the
+    plain tensor space the library returns for the slice). Returns (element, backing)."""
+    import odl
+    if layout in (None, 'C'):
+        return space.element(arr), None
+    if layout in ('F', 'strided'):
+        a, backing = lay_array(arr, layout)
+        x = space.element(a)
+        if not np.shares_memory(np.asarray(x.asarray()), a):
+            raise SkipCase('element() copied the {} array (see the element stream)'.format(
+                layout))
+        return x, backing
+    if layout == 'slice-view':
+        if kind != 'tensor' or arr.ndim == 0:
+            raise SkipCase('slice views are built for tensors only')
+        pshape = tuple(arr.shape[:-1]) + (2 * arr.shape[-1] + 1,)
+        parent = odl.tensor_space(pshape, dtype=arr.dtype).element(np.zeros(pshape, arr.dtype))
+        x = parent[..., 1::2] if arr.ndim > 1 else parent[1::2]
+        if kind_of(x) != 'tensor' or tuple(x.shape) != tuple(arr.shape) or \
+                not np.shares_memory(np.asarray(x.asarray()), np.asarray(parent.asarray())):
+            raise SkipCase('slicing a tensor does not give a view element')
+        x.asarray()[...] = arr
+        return x, parent.asarray()
+    raise KeyError(layout)
+
+
 def build_operands(c, space):
     """Returns (odl operands, plain operands, first element)."""
     dt = base_dtype(space)
     shape = tuple(space.shape)
     v = c.variant
-    x = space.element(values(shape, dt, v))
+    x, backing = layout_element(space, values(shape, dt, v), c.kw.get('_layout'), c.kind)
+    build_operands.backing = backing
     ops, pl = [], []
     n_e = 0
     for ch in c.ops:
@@ -523,8 +568,18 @@ def make_out(ch, c, space, x, res, noout_impl):
     if ch == 'w':
         l = np.zeros(res.shape, dtype=res.dtype).tolist()
         return l, np.zeros(res.shape, dtype=res.dtype).tolist()
+    lay = c.kw.get('_layout')
+    lay = lay if lay in ('F', 'strided') else None
     if ch == 'a':
-        return np.full(res.shape, 7, dtype=res.dtype), np.full(res.shape, 7, dtype=res.dtype)
+        a, _ = lay_array(np.full(res.shape, 7, dtype=res.dtype), lay)
+        return a, np.full(res.shape, 7, dtype=res.dtype)
+    if lay and ch in 'et' and res.shape != () and (c.kind == 'tensor' or ch == 't'):
+        a, _ = lay_array(np.full(res.shape, 7, dtype=res.dtype), lay)
+        o = odl.tensor_space(res.shape, dtype=res.dtype).element(a)
+        return o, np.full(res.shape, 7, dtype=res.dtype)
+    if lay and ch == 'e' and c.kind == 'discr' and tuple(res.shape) == tuple(space.shape):
+        a, _ = lay_array(np.full(res.shape, 7, dtype=res.dtype), lay)
+        return space.astype(res.dtype).element(a), np.full(res.shape, 7, dtype=res.dtype)
     if ch in 'gG':  # element / ndarray of a NARROWER kind than the computation dtype
         dt = narrower_dtype(res.dtype)
         if ch == 'G' or res.shape == ():
@@ -626,6 +681,8 @@ def run_case(c, space):
     nout = ufunc.nout
     kw = real_kw(c)
     ops, pl, x = build_operands(c, space)
+    backing = build_operands.backing
+    backing_pre = None if backing is None else np.array(backing, copy=True)
     pre = [plain(o) for o in ops]
     # ---- NumPy without out: result descriptor
     try:
@@ -682,7 +739,27 @@ def run_case(c, space):
     except Exception as e:  # noqa
         impl = ('err', e)
     return dict(c=c, ops=ops, pre=pre, x=x, np0=np0, npo=npo, impl=impl, outs_odl=outs_odl,
-                outs_np=outs_np, np_after=np_after, kw=kw, space=space)
+                outs_np=outs_np, np_after=np_after, kw=kw, space=space, backing=backing,
+                backing_pre=backing_pre)
+
+
+def power_component_problem(x, res):
+    """A power-space result must live in the component spaces of `x` converted to the result
+    dtype (same type of space, same partition / shape) - whatever was computed before."""
+    try:
+        if len(res.space) != len(x.space):
+            return 'result has {} parts, the operand {}'.format(len(res.space), len(x.space))
+        dt = base_dtype(res.space)
+        for i in range(len(x.space)):
+            want = x.space[i].astype(dt)
+            got = res.space[i]
+            if type(got) is not type(want) or tuple(got.shape) != tuple(want.shape) or \
+                    getattr(got, 'partition', None) != getattr(want, 'partition', None) or \
+                    base_dtype(got) != base_dtype(want):
+                return 'part {} lives in {!r}, expected {!r}'.format(i, got, want)
+    except Exception as e:  # noqa
+        return 'component spaces cannot be compared: {}: {}'.format(type(e).__name__, e)
+    return None
 
 
 def weighting_problem(c, r, a, b):
@@ -825,6 +902,10 @@ def oracle(r):
                 base_dtype(b.space), a.dtype)))
         if type(b.space) is not type(space):
             problems.append(('space-class', type(b.space).__name__))
+        if k == 'power' and c.kind == 'power':
+            pc = power_component_problem(dispatcher(r), b)
+            if pc:
+                problems.append(('power-component-space', pc))
         wp = weighting_problem(c, r, a, b)
         if wp:
             problems.append(('weighting', wp))
@@ -848,6 +929,17 @@ def oracle(r):
                 okp = True
             if not okp:
                 problems.append(('partition', 'result partition {}'.format(pdesc(part))))
+    # an element wrapping a view: everything of the backing array OUTSIDE the view is untouched
+    if r.get('backing') is not None:
+        bk, bp = np.asarray(r['backing']), r['backing_pre']
+        lay = c.kw.get('_layout')
+        mask = np.ones(bk.shape, dtype=bool)
+        if lay == 'strided':
+            mask[tuple(slice(None, None, 2) for _ in bk.shape)] = False
+        else:
+            mask[..., 1::2] = False
+        if not same_values(bk[mask], bp[mask]):
+            problems.append(('backing-array-modified', 'entries outside the wrapped view changed'))
     # operands untouched (except aliased out / at)
     for j, (o, p0) in enumerate(zip(r['ops'], r['pre'])):
         if kind_of(o) is None and not isinstance(o, np.ndarray):
@@ -1150,6 +1242,54 @@ def enumerate_cases(ctx, thorough, zoo, variant=None):
                                 continue
                             yield Case('ufunc', skey, kind, uname, u, 'reduceat', 'ei', op,
                                        kwv, variant)
+
+
+LAYOUT_SPACES = ['t_float64_23', 't_complex128_23', 't_int64_23', 'tw_float64_23', 't_float64_3',
+                 'd_float64_23', 'd_float32_23', 'd_float64_4', 't_float64_213']
+LAYOUTS = ['F', 'strided', 'slice-view']
+
+
+def layout_cases(ctx, zoo, variant):
+    """Memory-layout stratum (oracle only: the decision model does not see layouts): the
+    first element operand is F-contiguous / wraps a strided view of a larger array / is a
+    slice view of a larger tensor; element and ndarray outs get the same layout."""
+    def C(skey, kind, uname, method, ops, out, kw, lay):
+        return Case('ufunc', skey, kind, uname, getattr(np, uname), method, ops, out,
+                    dict(kw, _layout=lay), variant)
+    for skey in LAYOUT_SPACES:
+        kind = zoo[skey][0]
+        ndim = len(zoo_shape(zoo, skey))
+        for lay in LAYOUTS:
+            if lay == 'slice-view' and kind != 'tensor':
+                continue
+            if lay == 'F' and ndim < 2:
+                continue
+            for uname in ('add', 'multiply', 'maximum', 'sin', 'negative', 'isnan', 'modf'):
+                u = getattr(np, uname)
+                for ops in (['e'] if u.nin == 1 else ['ee', 'ea', 'ae', 'es', 'xx']):
+                    outs = ['n', 'e', 'a'] if u.nout == 1 else ['n', 'ee', 'aa', 'eN', 'Na']
+                    if kind == 'discr' and u.nout == 1:
+                        outs.append('t')
+                    if u.nout == 1 and ops in ('e', 'ee', 'xx'):
+                        outs.append('x')
+                    for op in outs:
+                        yield C(skey, kind, uname, '__call__', ops, op, {}, lay)
+            for uname in ('add', 'multiply', 'maximum', 'subtract'):
+                for ops, idx in (('eis', [0, 1]), ('eis', [0, 0]), ('eia', [1, 0])):
+                    yield C(skey, kind, uname, 'at', ops, 'n', {'_idx': idx}, lay)
+                axes = [{}] + ([{'axis': 1}, {'axis': -1}] if ndim >= 2 else [])
+                for ax in axes:
+                    for op in ['n', 'e', 'a'] + (['t'] if kind == 'discr' else []):
+                        yield C(skey, kind, uname, 'reduce', 'e', op, ax, lay)
+                        yield C(skey, kind, uname, 'accumulate', 'e', op, ax, lay)
+                    yield C(skey, kind, uname, 'accumulate', 'e', 'x', ax, lay)
+                for op in ['n', 'a']:
+                    yield C(skey, kind, uname, 'outer', 'ee', op, {}, lay)
+                    yield C(skey, kind, uname, 'outer', 'ea', op, {}, lay)
+                    yield C(skey, kind, uname, 'reduceat', 'ei', op, {'_idx': [0, 1]}, lay)
+            for uname in ('negative', 'sin', 'absolute'):
+                yield C(skey, kind, uname, 'at', 'ei', 'n', {'_idx': [0, 0]}, lay)
+                yield C(skey, kind, uname, 'at', 'ei', 'n', {'_idx': [1, 0]}, lay)
 
 
 _SHAPES = {}
@@ -1582,6 +1722,90 @@ def run_npreduce(ctx, lines, meta):
         meta.append((shape, ax, real))
 
 
+def history_spaces():
+    import odl
+    return [
+        ('rn3^2', lambda: odl.ProductSpace(odl.rn(3), 2)),
+        ('discr3^2', lambda: odl.ProductSpace(odl.uniform_discr(0, 1, 3), 2)),   # same shape
+        ('rn4^2', lambda: odl.ProductSpace(odl.rn(4), 2)),
+        ('cn3^2', lambda: odl.ProductSpace(odl.cn(3), 2)),
+        ('rn3^3', lambda: odl.ProductSpace(odl.rn(3), 3)),
+        ('f32_3^2', lambda: odl.ProductSpace(odl.rn(3, dtype='float32'), 2)),
+        ('discr2x2^2', lambda: odl.ProductSpace(odl.uniform_discr([0, 0], [1, 1], (2, 2)), 2)),
+        ('int3^2', lambda: odl.ProductSpace(odl.tensor_space(3, dtype='int64'), 2)),
+    ]
+
+
+HISTORY_CALLS = [
+    ('isnan', lambda x: np.isnan(x)),
+    ('less', lambda x: np.less(x, 0.5)),
+    ('signbit', lambda x: np.signbit(x)),
+    ('mul1j', lambda x: np.multiply(x, 1j)),
+    ('add_f32', lambda x: np.add(x, 0, dtype='float32')),
+    ('true_divide', lambda x: np.true_divide(x, 2)),
+    ('sin', lambda x: np.sin(x)),
+]
+
+
+def run_history(ctx, V):
+    """HISTORY stratum: dtype-changing ufuncs on elements of DIFFERENT power spaces (same
+    shape but another kind of component space, other shapes, other lengths) in two interleaved
+    orders within one process. Every result must have NumPy's numbers and live in the
+    component spaces of ITS OWN operand converted to the result dtype - what was computed
+    before (on other spaces) must not matter. Oracle only (no model)."""
+    spaces = [(n, ctor()) for n, ctor in history_spaces()]
+    plan_a = [(cn, f, sn, sp) for cn, f in HISTORY_CALLS for sn, sp in spaces]
+    plan_b = [(cn, f, sn, sp) for sn, sp in reversed(spaces) for cn, f in reversed(HISTORY_CALLS)]
+    for order, plan in (('A', plan_a), ('B', plan_b)):
+        for cn, f, sn, sp in plan:
+            dt = base_dtype(sp)
+            key = 'history kind=power call={} space={} order={} code='.format(cn, sn, order)
+            desc = {'stream': 'history', 'call': cn, 'space': sn, 'order': order}
+            try:
+                x = sp.element(values(tuple(sp.shape), dt, 1))
+                arr = np.array(x.asarray(), copy=True)
+            except Exception as e:  # noqa
+                V.add(key + 'construction-raised:{}({})'.format(type(e).__name__, msg_tag(e)),
+                      '{}: {}'.format(type(e).__name__, str(e)[:160]), desc)
+                continue
+            with warnings.catch_warnings():
+                warnings.simplefilter('ignore')
+                with np.errstate(all='ignore'):
+                    try:
+                        ref = ('ok', f(arr))
+                    except Exception as e:  # noqa
+                        ref = ('err', e)
+                    try:
+                        res = ('ok', f(x))
+                    except Exception as e:  # noqa
+                        res = ('err', e)
+            ctx.case(('history', cn, sn, order) if ref[0] == 'ok' and res[0] == 'ok' else None)
+            ctx.hit('history/{}/{}'.format(cn, sn))
+            if ref[0] == 'err':
+                if res[0] == 'ok':
+                    V.add(key + 'accepted-where-numpy-raises', type(ref[1]).__name__, desc)
+                continue
+            if res[0] == 'err':
+                V.add(key + 'impl-raised:{}({})'.format(type(res[1]).__name__, msg_tag(res[1])),
+                      '{}: {}'.format(type(res[1]).__name__, str(res[1])[:160]), desc)
+                continue
+            r = res[1]
+            if kind_of(r) != 'power':
+                V.add(key + 'not-wrapped', 'result is a ' + type(r).__name__, desc)
+                continue
+            pc = power_component_problem(x, r)
+            if pc:
+                V.add(key + 'power-component-space', pc, desc)
+                continue
+            got = np.asarray(r.asarray())
+            if got.dtype != ref[1].dtype:
+                V.add(key + 'dtype-mismatch', '{} vs NumPy {}'.format(got.dtype, ref[1].dtype),
+                      desc)
+            elif not same_values(got, ref[1]):
+                V.add(key + 'values-differ', '{} vs NumPy {}'.format(
+                    got.ravel()[:4], np.asarray(ref[1]).ravel()[:4]), desc)
+
+
 def model_branch(c, r, ans):
     """Which branch of the Lean model answered: model/<kind>/<method>/<outcome class>."""
     if ans.startswith('ok '):
@@ -1655,6 +1879,15 @@ EXPECTED_MODEL_BRANCHES = [
 ]
 
 
+EXPECTED_STRATA = (
+    ['layout/{}/{}'.format(l, m) for l in ('F', 'strided', 'slice-view')
+     for m in ('call', 'at', 'reduce', 'accumulate', 'outer', 'reduceat')] +
+    ['history/{}/{}'.format(c, s) for c in ('isnan', 'less', 'signbit', 'mul1j', 'add_f32',
+                                            'true_divide', 'sin')
+     for s in ('rn3^2', 'discr3^2', 'rn4^2', 'cn3^2', 'rn3^3', 'f32_3^2', 'discr2x2^2',
+               'int3^2')])
+
+
 def regenerate(ctx):
     try:
         changed, detail = extract_legacy.regenerate()
@@ -1701,8 +1934,10 @@ def run(ctx, deep=False):
     variants = [ctx.seed % 3]
     if ctx.tier == 'thorough':   # all three value sets (signs, zeros, repeats differ)
         variants = [(ctx.seed + k) % 3 for k in range(3)]
-    all_cases = itertools.chain.from_iterable(
-        enumerate_cases(ctx, thorough, zoo, v) for v in variants)
+    all_cases = itertools.chain(
+        itertools.chain.from_iterable(enumerate_cases(ctx, thorough, zoo, v) for v in variants),
+        itertools.chain.from_iterable(layout_cases(ctx, zoo, v) for v in variants))
+    construction_failures = []
     for c in all_cases:
         space = spaces[c.skey]
         try:
@@ -1713,6 +1948,14 @@ def run(ctx, deep=False):
             skipped += 1
             reason = str(e)
             skip_reasons[reason] = skip_reasons.get(reason, 0) + 1
+            continue
+        except Exception as e:  # noqa
+            # building operands / outs calls the library (space.element, astype, slicing, a
+            # first out-less call): an exception there is this case's outcome, not a crash
+            import traceback
+            tb = [l.strip() for l in traceback.format_exc().split('\n')
+                  if l.strip().startswith('File')]
+            construction_failures.append((c, e, ' <- '.join(tb[-3:])))
             continue
         problems = oracle(r)
         line = model_line(r)
@@ -1739,6 +1982,11 @@ def run(ctx, deep=False):
     answers = dict(zip(uniq, core.run_driver('C17', uniq)))
     # ---- compare: main + direct
     V = Violations(ctx)
+    for c, e, where in construction_failures:
+        V.add(c.key('case-construction-raised:{}({})'.format(type(e).__name__, msg_tag(e))),
+              'building the operands / out objects of this case raised {}: {} :: {}'.format(
+                  type(e).__name__, str(e)[:160], where)[:500], c.desc())
+        ctx.hit('outcome/construction-raised')
     for i, (c, r, problems) in enumerate(meta):
         line = lines[i]
         ans = answers[line]
@@ -1755,6 +2003,8 @@ def run(ctx, deep=False):
         for code, text in problems:
             V.add(c.key(code, res_class(r)), '{} :: {}'.format(text, imp)[:400], c.desc())
         ctx.hit(model_branch(c, r, ans))
+        if c.kw.get('_layout'):
+            ctx.hit('layout/{}/{}'.format(c.kw['_layout'], c.method.strip('_')))
         if ans != imp:
             ctx.disagree(dict(c.desc(), line=line), imp, ans)
     # ---- legacy
@@ -1810,7 +2060,18 @@ def run(ctx, deep=False):
         if answers[line] != real:
             ctx.disagree({'stream': 'npreduce', 'shape': list(shape), 'axis': list(ax),
                           'line': line}, real, answers[line])
+    try:
+        run_history(ctx, V)
+    except Exception as e:  # noqa
+        V.add('history stream raised {}({})'.format(type(e).__name__, msg_tag(e)),
+              '{}: {}'.format(type(e).__name__, str(e)[:200]), {'stream': 'history'})
     V.flush()
+    strata = set(k for k in ctx.branches if k.startswith(('layout/', 'history/')))
+    ctx.extra['unhit_strata'] = sorted(set(EXPECTED_STRATA) - strata)
+    if ctx.extra['unhit_strata'] and ctx.tier == 'thorough':
+        ctx.disagree({'unhit_strata': ctx.extra['unhit_strata']},
+                     'not reached by the enumeration', 'expected to be reached',
+                     stream='coverage')
     hit = set(k for k in ctx.branches if k.startswith('model/'))
     unhit = sorted(set(EXPECTED_MODEL_BRANCHES) - hit)
     ctx.extra['model_branches_hit'] = len(hit)
@@ -1850,6 +2111,17 @@ def search(ctx, broken):
 
 
 def replay(ctx, case):
+    if case.get('stream') == 'history':
+        class _V(object):
+            def __init__(self):
+                self.items = []
+
+            def add(self, key, what, replay):
+                self.items.append((key, what, replay))
+        v = _V()
+        run_history(ctx, v)
+        hits = [w for k, w, d in v.items if d == case]
+        return '; '.join(hits) if hits else None
     if case.get('stream') == 'import':
         z, _ = build_zoo(ctx)
         return None if z is not None else ctx.violations[-1]['what']
